@@ -176,7 +176,7 @@ def rand_bstmt(rng, nv, nb):
     """a boolean statement over the integer variables v0..v(nv-1) and the booleans b0..b(nb-1)"""
     B = lambda: rng.randrange(nb)
     k = rng.choices(["bassign", "bcopy", "bnot", "bbin", "bselect", "bassume", "bnassume", "bhavoc", "bzext"],
-                    [9, 3, 3, 6, 3, 2, 1, 2, 3])[0]
+                    [9, 3, 3, 6, 3, 1, 0.5, 2, 3])[0]
     if k == "bassign":
         c = gen_cst(rng, nv, small=True, maxterms=2)
         if rng.random() < 0.08:
@@ -193,21 +193,29 @@ def rand_bstmt(rng, nv, nb):
     return "%s %d" % (k, B())
 
 
+def likely_cst(rng, nv):
+    """a constraint that most of the sampled stores satisfy (values of POOL), so that executions get past an assume of it"""
+    x = rng.randrange(nv)
+    return rng.choice(["C le E 1 -1 %d %d" % (x, rng.choice([-10, -5, -1, 0])), "C ne E 1 1 %d %d" % (x, rng.choice([0, -1, -7, 4])),
+                       "C lt E 1 1 %d %d" % (x, rng.choice([-100, -10, -3])), "C le E 1 1 %d %d" % (x, rng.choice([-100, -10, -7])),
+                       fmt_cst(gen_cst(rng, nv, kinds=("le", "ne", "lt", "eq"), small=True, maxterms=2))])
+
+
 def true_bassert(rng, nv, fresh, aid):
     """a group of statements ending in a boolean assertion that holds whenever it is reached, on booleans
     b<fresh>, b<fresh+1>, b<fresh+2> that nothing else in the program writes.  -> (statements, booleans used)"""
     x = rng.randrange(nv)
-    k1 = rng.choice([-5, -1, 0, 1, 2, 7]); k0 = k1 - rng.choice([0, 0, 1, 3])
+    k1 = rng.choice([-10, -5, -1, 0, 1, 2]); k0 = k1 - rng.choice([0, 0, 1, 3])
     b, b2, b3 = fresh, fresh + 1, fresh + 2
     ge = lambda k: "C le E 1 -1 %d %d" % (x, k)              # x >= k
     r = rng.randrange(6)
     if r == 0:      # assume x >= k1 ; b := (x >= k0) ; assert b           (k0 <= k1)
         return ["assume " + ge(k1), "bassign %d %s" % (b, ge(k0)), "bassert %d %d" % (b, aid)], 1
     if r == 1:      # b := C ; assume b ; b2 := b ; assert b2
-        c = fmt_cst(gen_cst(rng, nv, small=True, maxterms=2))
+        c = likely_cst(rng, nv)
         return ["bassign %d %s" % (b, c), "bassume %d" % b, "bcopy %d %d" % (b2, b), "bassert %d %d" % (b2, aid)], 2
     if r == 2:      # b := C ; b2 := not b ; assume not b2 ; assert b
-        c = fmt_cst(gen_cst(rng, nv, small=True, maxterms=2))
+        c = likely_cst(rng, nv)
         return ["bassign %d %s" % (b, c), "bnot %d %d" % (b2, b), "bnassume %d" % b2, "bassert %d %d" % (b, aid)], 2
     if r == 3:      # b := C ; b2 := not b ; b3 := b or / xor b2 ; assert b3   (tautology)
         c = fmt_cst(gen_cst(rng, nv, small=True, maxterms=2))
@@ -222,7 +230,16 @@ def true_bassert(rng, nv, fresh, aid):
 def gen_bool_cfg(rng, big=False):
     """the CFG shapes of gen_cfg with blocks that mix numerical and boolean statements.
     -> (nb, nv, ex, blocks, edges, extra, ids of all assertions, ids of the assertions that hold by construction)"""
-    nblk, nv, ex, _blocks, edges, _extra, _na = gen_cfg(rng, big)
+    for _ in range(6):
+        nblk, nv, ex, _blocks, edges, _extra, _na = gen_cfg(rng, big)
+        seen, todo = {0}, [0]
+        while todo:
+            a = todo.pop()
+            for (u, v) in edges:
+                if u == a and v not in seen:
+                    seen.add(v); todo.append(v)
+        if ex in seen or rng.random() < 0.2:       # mostly CFGs whose exit block is reachable from the entry
+            break
     nbool = rng.choice([1, 2, 2, 3, 3, 4])
     fresh = nbool + 1                       # b<nbool> = the guard (below); b<nbool+1>.. = booleans of true_bassert groups
     ids, sure = [], []
@@ -232,13 +249,17 @@ def gen_bool_cfg(rng, big=False):
         ss = []
         for _ in range(rng.choice([0, 1, 1, 2, 2, 3, 4, 5])):
             ss.append(rand_bstmt(rng, nv, nbool) if rng.random() < 0.6 else rand_stmt(rng, nv))
-        for _ in range(rng.choice([0, 0, 1, 1, 2])):               # assertions that may fail
+        for _ in range(rng.choice([0, 0, 0, 1, 1, 2]) if rng.random() < 0.6 else 0):   # assertions that may fail
             aid = len(ids) + 1; ids.append(aid)
+            pos = rng.randint(0, len(ss))
             if rng.random() < 0.7:
-                a = "bassert %d %d" % (rng.randrange(nbool), aid)
+                bb = rng.randrange(nbool)
+                ss.insert(pos, "bassert %d %d" % (bb, aid))
+                if rng.random() < 0.6:      # holds on most stores, not by construction
+                    ss.insert(rng.randint(0, pos), "bassign %d %s" % (bb, likely_cst(rng, nv)))
             else:
-                a = "assert %s %d" % (fmt_cst(gen_cst(rng, nv, kinds=("le", "le", "eq", "ne", "lt"), small=True, maxterms=2)), aid)
-            ss.insert(rng.randint(0, len(ss)), a)
+                c = likely_cst(rng, nv) if rng.random() < 0.6 else fmt_cst(gen_cst(rng, nv, kinds=("le", "le", "eq", "ne", "lt"), small=True, maxterms=2))
+                ss.insert(pos, "assert %s %d" % (c, aid))
         if rng.random() < 0.45:                                     # a group that ends in an assertion that holds
             aid = len(ids) + 1; ids.append(aid); sure.append(aid)
             grp, used = true_bassert(rng, nv, fresh, aid)
@@ -252,11 +273,12 @@ def gen_bool_cfg(rng, big=False):
         if guard and rng.random() < 0.15:
             ss.insert(rng.randint(0, len(ss)), rng.choice(["bassume %d" % nbool, "bcopy %d %d" % (rng.randrange(nbool), nbool),
                                                           "bzext %d %d" % (rng.randrange(nv), nbool)]))
-        if rng.random() < 0.08:
+        if rng.random() < 0.04:
             ss.insert(rng.randint(0, len(ss)), "unreachable")
         blocks.append(ss)
     if guard:
-        blocks[0][0:0] = ["bassign %d %s" % (nbool, fmt_cst(gen_cst(rng, nv, small=True, maxterms=1))), "bassume %d" % nbool]
+        # mostly a condition that most of the sampled initial stores satisfy
+        blocks[0][0:0] = ["bassign %d %s" % (nbool, likely_cst(rng, nv)), "bassume %d" % nbool]
     extra = []
     if ex >= 0 and rng.random() < 0.7:
         vs = [str(v) for v in range(nv)] + ["b%d" % i for i in range(nbool)] * 2
@@ -488,7 +510,7 @@ def holds(c, s):
 def binop(f, a, b):
     if f == "add": return a + b
     if f == "sub": return a - b
-    if f == "mul": return a * b
+    if f == "mul": return a * b if (a.bit_length() + b.bit_length() <= 4096) else None      # else the run stops, as for a division by zero
     if f == "sdiv": return tdiv(a, b) if b != 0 else None
     if f == "srem": return a - b * tdiv(a, b) if b != 0 else None
     if f == "udiv": return a // b if (a >= 0 and b > 0) else None
@@ -827,7 +849,10 @@ def oracle_transform(line, ans, rng):
     r0 = random.Random(zlib.crc32(line.encode()))
     def count(T, t):
         return sum(x == t for b in T.text for x in T.text[b])
-    for t in range(24 if not P.nb else 40):
+    ndone = 0
+    for t in range(24 if not P.nb else 160):
+        if t >= 40 and (ndone >= 10 or (ndone == 0 and t >= 80)):
+            break                   # (only with booleans) more samples when few executions reach the exit
         s0 = [r0.choice(POOL) for _ in range(P.nv)]
         if P.nb:
             s0 += [r0.choice([0, 1]) for _ in range(P.nb)]      # booleans: the last entries of the store (see BV)
@@ -838,11 +863,14 @@ def oracle_transform(line, ans, rng):
             STATS["executions"] = STATS.get("executions", 0) + 1
             if st == "done":
                 STATS["exit_reaching"] = STATS.get("exit_reaching", 0) + 1
+                if ndone == 0:
+                    STATS["programs_with_exit_reaching"] = STATS.get("programs_with_exit_reaching", 0) + 1
                 for e in obs:
                     if e[0] == "assert" and e[1] in P.bool_asserts:
                         kk = "bool_assert_passed_lowered" if e[1] in lowered else "bool_assert_passed_kept"
                         STATS[kk] = STATS.get(kk, 0) + 1
         if st == "done":
+            ndone += 1
             st2, obs2, stuck = run_follower(Q, list(s0), seed, seq, set(P.blocks))
             want = lower_obs(obs, lowered)
             if st2 != "done" or obs2 != want:
